@@ -118,4 +118,4 @@ pub fn wrapping_nn_shifts(
 
 #[cfg(kani)]
 #[path = "/verif/kani/mod.rs"]
-mod kani_harnesses;
+pub(crate) mod kani_harnesses;
